@@ -97,6 +97,10 @@ def lin_str(f):
 def single_assign_subst(func):
     """names assigned exactly once in the function by a plain `x = expr` (not in a loop target, not augmented)"""
     counts, exprs = {}, {}
+    if isinstance(func, (ast.FunctionDef, ast.AsyncFunctionDef)):
+        a_ = func.args
+        for p_ in a_.posonlyargs + a_.args + a_.kwonlyargs + [x for x in (a_.vararg, a_.kwarg) if x is not None]:
+            counts[p_.arg] = 1          # a parameter that is re-bound has two definitions
     for n in ast.walk(func):
         if isinstance(n, ast.Assign):
             for t in n.targets:
@@ -513,23 +517,25 @@ def truth_transfer(node, env):
     return env
 
 
-def truth_search(g, starts, targets, stop_edge=None, env0=None, limit=200000):
+def truth_search(g, starts, targets, stop_edge=None, env0=None, limit=200000, extra0=None, step=None):
     """target node ids reachable from `starts` on paths that are feasible under truthiness propagation.
-    stop_edge(a, b, label) -> True cuts the edge.  Returns {target id: predecessor map key} (witness via `trace`)."""
+    stop_edge(a, b, label) -> True cuts the edge.  An optional hashable `extra` component of the state is advanced by
+    step(extra, node, label, env_before) on every edge taken.  Returns (hits, seen): hits = {target id: state key},
+    seen = {state key: predecessor key}; a state key is (node id, frozen env, extra)."""
     from collections import deque
     tset = {t.id if hasattr(t, 'id') else t for t in targets}
     seen = {}
     work = deque()
     for s in starts:
         sid = s.id if hasattr(s, 'id') else s
-        key = (sid, frozenset((env0 or {}).items()))
+        key = (sid, frozenset((env0 or {}).items()), extra0)
         seen[key] = None
         work.append(key)
     hits = {}
     steps = 0
     while work:
         key = work.popleft()
-        nid, fenv = key
+        nid, fenv, extra = key
         env = dict(fenv)
         node = g.nodes[nid]
         steps += 1
@@ -544,10 +550,8 @@ def truth_search(g, starts, targets, stop_edge=None, env0=None, limit=200000):
         for b, lab in g.succ[nid]:
             if stop_edge is not None and stop_edge(nid, b, lab):
                 continue
-            if lab in ('exc',):
+            if lab in ('exc', 'raise'):
                 nenv = env            # the statement did not complete
-            elif lab == 'raise':
-                nenv = env
             else:
                 if node.kind == 'test' and tv is not None and lab in (True, False) and lab != tv:
                     continue
@@ -556,7 +560,8 @@ def truth_search(g, starts, targets, stop_edge=None, env0=None, limit=200000):
                 nenv = after
                 if node.kind == 'test' and lab in (True, False):
                     nenv = _refine(node.ast, lab, nenv)
-            k2 = (b, frozenset(nenv.items()))
+            nextra = step(extra, node, lab, env, g.nodes[b]) if step is not None else extra
+            k2 = (b, frozenset(nenv.items()), nextra)
             if k2 not in seen:
                 seen[k2] = key
                 work.append(k2)
